@@ -112,7 +112,7 @@ def run(ctx):
                 "past the end or negative), small and 2^31/2^64-sized values; plus a stream aimed at each fault "
                 "(one faulting instruction between filler).  Compared after every subroutine: outcome (halt / fault "
                 "exception class + line named by the message / blocked / step bound), pc, registers, arrays, shared "
-                "memory registers and arrays, unit module.  non-trivial = at least 3 instructions and the reference "
+                "memory registers and arrays, unit module (physical qubit mapped to each virtual id) and the executor's set of physical qubits in use; after a fault the application continues with further subroutines (aimed stream: a random one, and for the allocation faults one qalloc per virtual id, some qfrees, one more qalloc).  non-trivial = at least 3 instructions and the reference "
                 "semantics defined on the whole case; distinct = distinct (cap, subroutines)")
     ctx.props("C04")
     # bridges from the private interpreters of C03/C05/C08/C10 to Sem / SemQ
@@ -163,7 +163,8 @@ def run(ctx):
         ctx.coverage["outcome_distribution_per_subroutine"] = dict(sorted(stats.items()))
         ctx.coverage["instruction_kinds"] = dict(sorted(kinds.items()))
         ctx.coverage["aimed_targets"] = H.FAULT_TARGETS
-        ctx.coverage["subroutines_per_case"] = {str(k): sum(1 for c in cases if len(c["subs"]) == k) for k in range(1, 5)}
+        ctx.coverage["subroutines_per_case"] = {str(k): sum(1 for c in cases if len(c["subs"]) == k) for k in range(1, 16)
+                                                if any(len(c["subs"]) == k for c in cases)}
         ctx.samples = [case_json(c) for c in (cases[0], cases[len(H.FAULT_TARGETS) * 3], cases[-1], cases[-2])]
         for s in ctx.samples:
             s.pop("implementation", None)
